@@ -116,7 +116,3 @@ func GenChainPlan(rt *rapid.T, p *GenParams) *ChainPlan {
 	return pl
 }
 
-// doAdversarial executes adversarial / failing operations (badtx, badblock, ...).
-func (r *chainRun) doAdversarial(st *CStep, n *Node, v *nodeView, failed *bool, failKind *string) *Violation {
-	return nil
-}
